@@ -20,7 +20,7 @@ META = {
         "non-trivial when the texture is not uniform (0-3), the mesh has > 1 cell (4) or a "
         "refusal was exercised (5)."
     ),
-    "cases": {"quick": 336, "thorough": 4200},
+    "cases": {"quick": 336, "thorough": 2800},
     "workers": {"quick": 8, "thorough": 16},
     "timeout": {"quick": 600, "thorough": 5400},
     "deciding": [
